@@ -1353,12 +1353,14 @@ class InlineCtx:
                     continue
                 if f.id in p.closures:
                     hfn, closure_env = p.closures[f.id]
-                elif not self.module_functions:
-                    continue
                 else:
                     r = self.repo.resolve(self.mi, f.id)
                     if r is not None and isinstance(r[1], ast.FunctionDef) and r[0].rel.startswith("optimum/"):
                         hmi, hfn = r
+                    if hfn is not None and not self.module_functions and not _is_setter_procedure(hfn):
+                        # value helpers stay calls in this mode (the rules look for them by name); a procedure that writes its argument in place
+                        # (`_set_scale(module.input_scale, v)`) is the store itself and is always expanded
+                        hfn, hmi = None, self.mi
                 if hfn is not None and hfn.decorator_list:
                     hfn = None
             elif isinstance(f, ast.Attribute) and isinstance(f.value, ast.Name) and f.value.id in ("self", "cls") and self.cls is not None:
@@ -1394,6 +1396,15 @@ class InlineCtx:
                     env.setdefault(k, v)
             return node, hfn, env, hmi
         return None
+
+
+def _is_setter_procedure(fn) -> bool:
+    """A module-level procedure (no valued return) that writes one of its parameters in place: `def _set(buf, v): buf.copy_(v)`."""
+    params = set(positional_params(fn))
+    if any(isinstance(n, ast.Return) and n.value is not None and not (isinstance(n.value, ast.Constant) and n.value.value is None) for n in ast.walk(fn)):
+        return False
+    return any(isinstance(n, ast.Call) and isinstance(n.func, ast.Attribute) and n.func.attr.endswith("_") and not n.func.attr.startswith("_")
+               and isinstance(n.func.value, ast.Name) and n.func.value.id in params for n in ast.walk(fn))
 
 
 def _postorder(e: ast.AST):
@@ -1527,6 +1538,11 @@ class PathEnum:
                     out.append(q)
                     continue
                 q.effects.append(("expr", val, st.lineno, q.in_loop))
+                # `owner.<buffer>.copy_(v)`: the registered buffer is written in place - for the rules about the VALUE a buffer holds this is the store
+                # `owner.<buffer> = v` (the rules about aliasing read the "expr" effect above and tell the two apart)
+                if (isinstance(val, ast.Call) and isinstance(val.func, ast.Attribute) and val.func.attr == "copy_" and len(val.args) >= 1 and isinstance(val.func.value, ast.Attribute)
+                        and val.func.value.attr in INPLACE_STORE_BUFFERS):
+                    q.effects.append(("store", val.func.value.value, val.func.value.attr, val.args[0], st.lineno, q.in_loop))
                 out.append(q)
             return out
         if isinstance(st, ast.Assert):
@@ -1733,6 +1749,7 @@ def path_feasible(p: "Path") -> bool:
     return True
 
 
+INPLACE_STORE_BUFFERS = ("input_scale", "output_scale")  # the registered activation-scale buffers of a quantized module
 ACTIVE_REPO: Optional["Repo"] = None
 _MODULE_OF: Dict[int, ModuleInfo] = {}
 _CLASS_OF: Dict[int, ClassInfo] = {}
